@@ -374,4 +374,75 @@ Proof.
   unfold body. rewrite debugsup_parse_body by assumption. reflexivity.
 Qed.
 
+(* ---------- two hops: stripped file --.gnu_debuglink--> debug file --supplementary link--> ... ---------- *)
+Lemma debug_view_own e : sec_named e n_debuglink = None ->
+  forall fuel fs relocate follow,
+  debug_view (S fuel) fs e relocate follow = own_view fs e relocate follow.
+Proof. intros H fuel fs relocate follow. cbn [C11Container.debug_view]. rewrite H. reflexivity. Qed.
+
+(* the loader is handed down: what is seen through the debug link is the debug file's own
+   view INCLUDING the view of the supplementary file it names, resolved by the same loader *)
+Theorem two_hop_view es name pad crc off tail load dbg ed :
+  presence es true = false -> debuglink_ok name pad crc = true ->
+  load name = Some dbg -> crc32_poly dbg = crc -> parse dbg = Some ed ->
+  sec_named ed n_debuglink = None ->
+  forall fuel relocate,
+  debug_view (S (S fuel)) (Some load)
+             (add_section (debuglink_sec (e_le es) name pad crc off tail) es) relocate true
+  = own_view (Some load) ed relocate true.
+Proof.
+  intros Hp Hok Hload Hcrc Hparse Hnl fuel relocate.
+  rewrite (debuglink_view es name pad crc off tail load dbg ed Hp Hok Hload Hcrc Hparse).
+  apply debug_view_own. exact Hnl.
+Qed.
+
+Theorem two_hop_altlink es name pad crc off tail load dbg e supname id rest off2 tail2 b esup sl slsup relocate :
+  presence es true = false -> debuglink_ok name pad crc = true ->
+  load name = Some dbg -> crc32_poly dbg = crc ->
+  parse dbg = Some (add_section (link_section n_debugaltlink (altlink_body supname (id ++ rest)) off2 tail2) e) ->
+  sec_named e n_debuglink = None ->
+  no_phantom e = true -> own_slots e relocate = Some sl -> nth SLOT_SUP sl None = None ->
+  no_nul supname = true -> length id = 20%nat ->
+  load supname = Some b -> parse b = Some esup ->
+  own_slots esup true = Some slsup -> sup_path (e_le esup) slsup <> None ->
+  forall fuel,
+  debug_view (S (S fuel)) (Some load)
+             (add_section (debuglink_sec (e_le es) name pad crc off tail) es) relocate true
+  = Some (mkView (config_of e)
+            (set_nth SLOT_ALTLINK
+               (Some (mkDesc (altlink_body supname (id ++ rest)) (zlen (altlink_body supname (id ++ rest))) 0
+                             (if relocate then reloc_index e n_debugaltlink else None))) sl)
+            (Some (config_of esup, slsup))).
+Proof.
+  intros Hp Hok Hload Hcrc Hparse Hnl Hph Hsl Hns Hnn Hid Hl2 Hp2 Hss Hsp fuel.
+  rewrite (two_hop_view es name pad crc off tail load dbg _ Hp Hok Hload Hcrc Hparse).
+  - apply (altlink_view e supname id rest off2 tail2 load b esup sl slsup relocate); assumption.
+  - rewrite sec_named_app_other by reflexivity. exact Hnl.
+Qed.
+
+Theorem two_hop_debugsup es name pad crc off tail load dbg e version supname rest off2 tail2 b esup sl slsup relocate :
+  presence es true = false -> debuglink_ok name pad crc = true ->
+  load name = Some dbg -> crc32_poly dbg = crc ->
+  parse dbg = Some (add_section (link_section n_debug_sup (debugsup_body (e_le e) version 0 supname rest) off2 tail2) e) ->
+  sec_named e n_debuglink = None ->
+  no_phantom e = true -> own_slots e relocate = Some sl ->
+  no_nul supname = true ->
+  load supname = Some b -> parse b = Some esup ->
+  own_slots esup true = Some slsup -> sup_path (e_le esup) slsup <> None ->
+  forall fuel,
+  debug_view (S (S fuel)) (Some load)
+             (add_section (debuglink_sec (e_le es) name pad crc off tail) es) relocate true
+  = Some (mkView (config_of e)
+            (set_nth SLOT_SUP
+               (Some (mkDesc (debugsup_body (e_le e) version 0 supname rest)
+                             (zlen (debugsup_body (e_le e) version 0 supname rest)) 0
+                             (if relocate then reloc_index e n_debug_sup else None))) sl)
+            (Some (config_of esup, slsup))).
+Proof.
+  intros Hp Hok Hload Hcrc Hparse Hnl Hph Hsl Hnn Hl2 Hp2 Hss Hsp fuel.
+  rewrite (two_hop_view es name pad crc off tail load dbg _ Hp Hok Hload Hcrc Hparse).
+  - apply (debugsup_view e version supname rest off2 tail2 load b esup sl slsup relocate); assumption.
+  - rewrite sec_named_app_other by reflexivity. exact Hnl.
+Qed.
+
 End Links.
